@@ -391,14 +391,23 @@ def run_check(prop, cfg, tier, seed):
             if rc == 0:
                 rc = 1
 
-        write_evidence(prop, cfg, tier, seed, summaries, known_hit, reported, time.time() - t0)
+        extra = None
+        if cfg.get("xzsim_extra"):
+            sys.path.insert(0, os.path.join(V, "xzsim"))
+            import xz_checks
+            erc, erep, ecnt, ecases, efeats = xz_checks.run_extra(prop, cfg["xzsim_extra"]["what"], cfg["xzsim_extra"][tier], seed)
+            reported += erep
+            if erc == 2 or (erc == 1 and rc == 0):
+                rc = erc if rc != 2 else rc
+            extra = {"cases": ecases, "distinct": efeats, "counters": ecnt}
+        write_evidence(prop, cfg, tier, seed, summaries, known_hit, reported, time.time() - t0, extra)
     finally:
         shutil.rmtree(scratch, ignore_errors=True)
     log("%s %s: %s (%.0fs)" % (prop, tier, {0: "held on everything explored", 1: "VIOLATION", 2: "MACHINERY FAILURE"}[rc], time.time() - t0))
     return rc
 
 
-def write_evidence(prop, cfg, tier, seed, summaries, known_hit, reported, wall):
+def write_evidence(prop, cfg, tier, seed, summaries, known_hit, reported, wall, extra=None):
     counters = {}
     runs = 0
     feats = 0
@@ -461,5 +470,8 @@ def write_evidence(prop, cfg, tier, seed, summaries, known_hit, reported, wall):
         "wall_s": round(wall, 1),
         "violations": len(reported),
     }
+    if extra:
+        ev["coverage"]["evaluations"] += extra["cases"]
+        ev["coverage"]["xzsim_cases"] = extra
     os.makedirs(os.path.join(V, "evidence"), exist_ok=True)
     json.dump(ev, open(os.path.join(V, "evidence", prop + ".json"), "w"), indent=1)
